@@ -20,7 +20,7 @@ META = {
                    "flags from one row (shared with C09.R5); take_best takes argmin over the penalties logged from the starting "
                    "point of *this* call (window start evaluated after the starting point was logged, same offset added back), only "
                    "when take_best and not within tolerance; penalty and knob vector of a row describe the same point, and the "
-                   "penalty is computed by a real evaluation (never answered from a remembered one).",
+                   "penalty is computed by a real evaluation (never answered from a remembered one). vary_active/target_active take the mask of their own side read when the row is written; set_knobs_from_x writes every active knob; disabled targets contribute exactly zero.",
     "decides": "rectangularity of the log on all paths, window arithmetic of take_best, ordering of the statements that build a row",
     "not_decided": "reproducibility of a row by re-evaluation (numeric)",
     "assumptions": ["the solver's penalty_after_last_step refers to solver.x (C10.R4 trial = commit)"],
